@@ -269,7 +269,7 @@ def run(ctx):
             if not has_disc:
                 n_disc += 1
                 e = exactness(f, init)
-                ctx.check(e == "INT", "discretised-fraction-exact:%s@nth" % short(f), "E-TYPE exactness domain (INT/QUOT/INEXACT)", f.loc(init),
+                ctx.check(e in ("INT", "QUOT"), "discretised-fraction-exact:%s@nth" % short(f), "E-TYPE exactness domain (INT/QUOT/INEXACT)", f.loc(init),
                           "the cut-off index is computed in integer arithmetic", "the cut-off index is a truncated inexact floating value (%s)" % f.text(init)[:120])
     ctx.counters["discretised_fractions"] = n_disc
     ctx.floor("discretised_fractions", 1, "ceil/floor sites or integer cut-off in the ranking scope (growing_size_percentile cut-off)")
